@@ -74,8 +74,11 @@ CoreX(r, s) ==
     IF v = "ok" \/ Pre(r, s) # "" THEN v
     ELSE IF \E xo \in AdmOffsets(s, G(r), r.cfg) : xo # s.xoffset /\ Core(r, [s EXCEPT !.xoffset = xo]) = "ok" THEN "ok"
     ELSE v
+(* the logged xoffset is the value left by the last updatePromptOffset; while the prompt is not drawn (input hidden) or  *)
+(* before the next print it can exceed the cursor position of a shorter query - printing clamps it first              *)
+ClampX(s) == [s EXCEPT !.xoffset = IF @ > s.cx THEN s.cx ELSE @]
 Verdict(r) ==
-    LET s == St(r)
+    LET s == ClampX(St(r))
         v == CoreX(r, s)
         a1 == DevHeaderLinesStayApplies(s, r.cfg)
         s1 == DevHeaderLinesStayState(s)
